@@ -462,6 +462,7 @@ func hashable(v val.V) bool {
 func c04Opts(depth int) gen.Opts {
 	o := gen.Full(depth)
 	o.WildIDs = true
+	o.TypedContainers = true // totality needs no model of the native forms
 	return o
 }
 
